@@ -360,6 +360,7 @@ func (c09) Eval(c *Chooser, env *Env) *Outcome {
 		gnames = append(gnames, g.name)
 	}
 	o.Sample = map[string]any{"groups": gnames, "jobs": len(all), "diagnostics": len(res.Errs), "workflow": text, "nonidentity_sites_exercised": res.SitesMulti}
+	o.Digest = DigestOf(res.Errs, res.Fatal != "")
 	if v := runFailure("C09", res.K); v != nil {
 		o.V = v
 		return o
